@@ -4,7 +4,7 @@ from mindsdb_sql.parser.ast import *
 from mindsdb_sql.exceptions import ParsingException
 from mindsdb_sql.parser.lexer import SQLLexer
 from mindsdb_sql.parser.logger import ParserLogger
-from mindsdb_sql.parser.utils import ensure_select_keyword_order, JoinType, unquote_string_token
+from mindsdb_sql.parser.utils import ensure_select_keyword_order, JoinType, unquote_string_token, binary_operation
 
 
 class SQLParser(Parser):
@@ -638,7 +638,7 @@ class SQLParser(Parser):
        'expr CONCAT expr',
        'expr IN expr')
     def expr(self, p):
-        return BinaryOperation(op=p[1], args=(p.expr0, p.expr1))
+        return binary_operation(p[1], p.expr0, p.expr1)
 
 
     @_('MINUS expr %prec UMINUS',
